@@ -250,4 +250,77 @@ theorem toRat32_bits' (x : Float32) (h : x.isFinite = true) :
   unfold toRat32
   rw [FM.float32_unpack, uval_unpackNat32 _ h']
 
+/-! ### `f32 → f64` is exact -/
+
+theorem field_split (M x y : Nat) (hy : y < 2 ^ M) : (x * 2 ^ M + y) % 2 ^ M = y ∧ (x * 2 ^ M + y) / 2 ^ M = x := by
+  constructor
+  · rw [Nat.mul_comm, Nat.mul_add_mod, Nat.mod_eq_of_lt hy]
+  · rw [Nat.mul_comm, Nat.mul_add_div (Nat.pow_pos (by decide)), Nat.div_eq_of_lt hy, Nat.add_zero]
+
+/-- **`upBits` is exact**: a finite binary32 pattern is mapped to a finite binary64 pattern with the same sign and the
+same value `m · 2^e` (zeros, subnormals — renormalised —, normals). -/
+theorem upBits_val (b : Nat) (hb : b < 2 ^ 32) (hfin : b / 2 ^ 23 % 2 ^ 8 ≠ 255) :
+    upBits b / 2 ^ 52 % 2 ^ 11 ≠ 2047 ∧ upBits b / 2 ^ 63 = b / 2 ^ 31 ∧
+    ((decompose fmt64 (upBits b % 2 ^ 63)).1 : ℚ) * (2 : ℚ) ^ (decompose fmt64 (upBits b % 2 ^ 63)).2 =
+      ((decompose fmt32 (b % 2 ^ 31)).1 : ℚ) * (2 : ℚ) ^ (decompose fmt32 (b % 2 ^ 31)).2 := by
+  have hfr : b % 2 ^ 23 < 2 ^ 23 := Nat.mod_lt _ (by decide)
+  have hb31 : b % 2 ^ 31 = b / 2 ^ 23 % 2 ^ 8 * 2 ^ 23 + b % 2 ^ 23 := by omega
+  unfold upBits
+  simp only [FB.inf64, FB.nan64]
+  rw [if_neg hfin]
+  split
+  · rename_i he0
+    split
+    · rename_i hm0
+      have h31 : b % 2 ^ 31 = 0 := by omega
+      refine ⟨by omega, by omega, ?_⟩
+      rw [h31, show b / 2 ^ 31 % 2 * 2 ^ 63 % 2 ^ 63 = 0 by omega, decompose64_sub 0 (by decide),
+        decompose32_sub 0 (by decide)]
+      simp
+    · rename_i hm
+      have hk : (b % 2 ^ 23).log2 < 23 := (Nat.log2_lt hm).mpr hfr
+      have hk1 : 2 ^ (b % 2 ^ 23).log2 ≤ b % 2 ^ 23 := Nat.log2_self_le hm
+      have hr := FB.sub_mul_lt (m := b % 2 ^ 23) (k := (b % 2 ^ 23).log2) (by omega) hk1 Nat.lt_log2_self
+      have hid : (b % 2 ^ 23 - 2 ^ (b % 2 ^ 23).log2) * 2 ^ (52 - (b % 2 ^ 23).log2) + 2 ^ 52 =
+          b % 2 ^ 23 * 2 ^ (52 - (b % 2 ^ 23).log2) := by
+        have : (2 : Nat) ^ 52 = 2 ^ (b % 2 ^ 23).log2 * 2 ^ (52 - (b % 2 ^ 23).log2) := by
+          rw [← Nat.pow_add]; congr 1; omega
+        rw [this, ← Nat.add_mul, Nat.sub_add_cancel hk1]
+      have h31 : b % 2 ^ 31 = b % 2 ^ 23 := by omega
+      rw [h31]
+      generalize (b % 2 ^ 23 - 2 ^ (b % 2 ^ 23).log2) * 2 ^ (52 - (b % 2 ^ 23).log2) = r at hr hid
+      generalize (b % 2 ^ 23).log2 = k at hk hk1 hid
+      generalize b % 2 ^ 23 = fr at *
+      refine ⟨by omega, by omega, ?_⟩
+      have hmag : (b / 2 ^ 31 % 2 * 2 ^ 63 + (k + 874) * 2 ^ 52 + r) % 2 ^ 63 = (k + 874) * 2 ^ 52 + r := by omega
+      rw [hmag, decompose64_norm _ (by omega), decompose32_sub fr (by omega)]
+      have h1 : ((k + 874) * 2 ^ 52 + r) % 2 ^ 52 = r := (field_split 52 _ _ hr).1
+      have h2 : ((k + 874) * 2 ^ 52 + r) / 2 ^ 52 = k + 874 := (field_split 52 _ _ hr).2
+      rw [h1, h2, hid]
+      simp only []
+      rw [show (-149 : Int) = (((k + 874 : Nat) : Int) - 1075) + ((52 - k : Nat) : Int) by omega,
+        zpow_add₀ (two_ne_zero), zpow_natCast]
+      push_cast
+      ring
+  · rename_i he0
+    generalize b / 2 ^ 23 % 2 ^ 8 = ef at *
+    have hef : ef < 2 ^ 8 := by
+      have := Nat.mod_lt (b / 2 ^ 23) (show 0 < 2 ^ 8 by decide)
+      omega
+    generalize b % 2 ^ 23 = fr at *
+    refine ⟨by omega, by omega, ?_⟩
+    have hmag : (b / 2 ^ 31 % 2 * 2 ^ 63 + (ef + 896) * 2 ^ 52 + fr * 2 ^ 29) % 2 ^ 63 =
+        (ef + 896) * 2 ^ 52 + fr * 2 ^ 29 := by omega
+    have hlt : fr * 2 ^ 29 < 2 ^ 52 := by omega
+    have h1 : ((ef + 896) * 2 ^ 52 + fr * 2 ^ 29) % 2 ^ 52 = fr * 2 ^ 29 := (field_split 52 _ _ hlt).1
+    have h2 : ((ef + 896) * 2 ^ 52 + fr * 2 ^ 29) / 2 ^ 52 = ef + 896 := (field_split 52 _ _ hlt).2
+    have h3 : (ef * 2 ^ 23 + fr) % 2 ^ 23 = fr := (field_split 23 _ _ hfr).1
+    have h4 : (ef * 2 ^ 23 + fr) / 2 ^ 23 = ef := (field_split 23 _ _ hfr).2
+    rw [hmag, hb31, decompose64_norm _ (by omega), decompose32_norm _ (by omega), h1, h2, h3, h4]
+    simp only []
+    rw [show ((ef : Int) - 150) = (((ef + 896 : Nat) : Int) - 1075) + ((29 : Nat) : Int) by omega,
+      zpow_add₀ (two_ne_zero), zpow_natCast]
+    push_cast
+    ring
+
 end Rosu.FErr
